@@ -14,6 +14,7 @@ Brief(r) == [id |-> r.id, origin |-> r.origin, fmt |-> r.fmt, tf |-> r.tf, tc |-
              open_err |-> (IF r.opened.ok = 1 THEN "" ELSE r.opened.err), choices |-> r.choices,
              decode_err |-> (IF r.decoded.skip = 1 \/ r.decoded.ok = 1 THEN "" ELSE r.decoded.err),
              sparse |-> (IF "sparse" \in DOMAIN r THEN r.sparse ELSE 0),
+             via |-> (IF "via" \in DOMAIN r THEN r.via ELSE "file"),
              tiles_head |-> SubSeq(r.tiles, 1, IF Len(r.tiles) < 8 THEN Len(r.tiles) ELSE 8)]
 
 BadStreams(r) ==
